@@ -792,3 +792,101 @@ func retVal(ret *ssa.Return, i int) ssa.Value {
 func isRecoverBlock(b *ssa.BasicBlock) bool {
 	return b.Parent().Recover == b
 }
+
+// ---------- abstract walk under an assumption ----------
+
+// walkAssuming explores fn's CFG from the entry, deciding each conditional branch with
+// `decide` (0 = only the true edge, 1 = only the false edge, -1 = both). It returns the
+// set of reachable blocks. This is constant propagation of one assumed fact through
+// branch conditions, nothing is executed.
+func walkAssuming(fn *ssa.Function, decide func(cond ssa.Value) int) map[*ssa.BasicBlock]bool {
+	seen := map[*ssa.BasicBlock]bool{}
+	var walk func(b *ssa.BasicBlock)
+	walk = func(b *ssa.BasicBlock) {
+		if seen[b] {
+			return
+		}
+		seen[b] = true
+		if f := ifOf(b); f != nil {
+			switch decide(f.Cond) {
+			case 0:
+				walk(b.Succs[0])
+			case 1:
+				walk(b.Succs[1])
+			default:
+				walk(b.Succs[0])
+				walk(b.Succs[1])
+			}
+			return
+		}
+		for _, s := range b.Succs {
+			walk(s)
+		}
+	}
+	if len(fn.Blocks) > 0 {
+		walk(fn.Blocks[0])
+	}
+	return seen
+}
+
+// decideEqConst builds a decider for "value matching `isVar` equals constant k": conditions
+// of the form (var == c) / (var != c) are decided, everything else explores both edges.
+func decideEqConst(isVar func(ssa.Value) bool, k int64) func(ssa.Value) int {
+	return func(cond ssa.Value) int {
+		a, ok := condAtom(cond, true)
+		if !ok || (a.Op != token.EQL && a.Op != token.NEQ) {
+			return -1
+		}
+		x, y := a.X, a.Y
+		if c, isC := constInt(x); isC {
+			_ = c
+			x, y = y, x
+		}
+		c, isC := constInt(y)
+		if !isC || !isVar(x) {
+			return -1
+		}
+		eq := c == k
+		if a.Op == token.NEQ {
+			eq = !eq
+		}
+		if eq {
+			return 0
+		}
+		return 1
+	}
+}
+
+// typedConsts lists the package-level constants of a named type, value -> name.
+func (p *Prog) typedConsts(typeName string) map[int64]string {
+	out := map[int64]string{}
+	sc := p.Types.Scope()
+	for _, nm := range sc.Names() {
+		c, ok := sc.Lookup(nm).(*types.Const)
+		if !ok {
+			continue
+		}
+		n, ok := c.Type().(*types.Named)
+		if !ok || n.Obj().Name() != typeName {
+			continue
+		}
+		if v, exact := constant.Int64Val(c.Val()); exact {
+			out[v] = nm
+		}
+	}
+	return out
+}
+
+// untypedByteConsts: package constants of basic type byte with the given names.
+func (p *Prog) namedConsts(names ...string) (map[int64]string, []string) {
+	out := map[int64]string{}
+	var missing []string
+	for _, nm := range names {
+		if v, ok := p.constOf(nm); ok {
+			out[v] = nm
+		} else {
+			missing = append(missing, nm)
+		}
+	}
+	return out, missing
+}
